@@ -28,11 +28,13 @@ impl<'a> Ev<'a> {
                 Op1::Neg => -x, Op1::Sqrt => x.sqrt(), Op1::Sin => x.sin(), Op1::Cos => x.cos(), Op1::Tan => x.tan(),
                 Op1::Asin => x.asin(), Op1::Acos => x.acos(), Op1::Atan => x.atan(), Op1::Floor => x.floor(),
                 Op1::Ceil => x.ceil(), Op1::Round => x.round(), Op1::Trunc => x.trunc(), Op1::Abs => x.abs(),
-                Op1::Signum => x.signum(), Op1::Exp => x.exp(), Op1::Ln => x.ln(), Op1::Not => f64::NAN } }
+                Op1::Signum => x.signum(), Op1::Exp => x.exp(), Op1::Ln => x.ln(), Op1::Not => !(x as i64) as f64 } }
             Node::Bin(op, a, b) => { let x = self.val(a); let y = self.val(b); match op {
                 Op2::Add => x + y, Op2::Sub => x - y, Op2::Mul => x * y, Op2::Div => x / y, Op2::Rem => x % y,
                 Op2::Min => x.min(y), Op2::Max => x.max(y), Op2::Atan2 => x.atan2(y), Op2::Powf => x.powf(y),
-                _ => f64::NAN } }
+                // bit operations: a fixed concrete stand-in on the integer parts (used only to exhibit model-level differences)
+                Op2::And => ((x as i64) & (y as i64)) as f64, Op2::Or => ((x as i64) | (y as i64)) as f64, Op2::Xor => ((x as i64) ^ (y as i64)) as f64,
+                Op2::Shl => (x as i64).wrapping_shl((y as i64 & 31) as u32) as f64, Op2::Shr => (x as i64).wrapping_shr((y as i64 & 31) as u32) as f64 } }
             Node::Fma(a, b, c) => { let x = self.val(a); let y = self.val(b); let z = self.val(c); x.mul_add(y, z) }
             Node::Powi(a, n) => self.val(a).powi(n),
             Node::Fun(id, args) => { let xs: Vec<f64> = args.iter().map(|a| self.val(*a)).collect(); ufun_f64(id, &xs) }
